@@ -1,8 +1,8 @@
 (* C18 — a format string maps columns by position, and inspect's suggestion round-trips.
    Model: C18/Model.v (character-level hand model of parse_format_string, auto_detect_csv_format's
    header matching and cmd_inspect's suggestion builder) over Gen/C18Keywords.v (RESERVED_NAMES, default
-   date formats and header keyword lists, regenerated from /repo on every run; the two regular
-   expressions and the "," separator are pinned by the translator).  Vocabulary: C18/Spec.v
+   date formats and header keyword lists, regenerated from /repo on every run; the field regular
+   expression, the "," separator and the helper _template_field_names are pinned by the translator).  Vocabulary: C18/Spec.v
    (arrangements = lists of column kinds of ANY length, spellings, render, maps_by_position).
    The tie between the model and the code is the correspondence check of harness/c18.py. *)
 From Coq Require Import String Ascii List Bool NArith Arith.
@@ -10,87 +10,72 @@ From Tally Require Import Lib.Str Gen.C18Keywords C18.Model C18.Spec C18.Proofs.
 Import ListNotations.
 Open Scope string_scope.
 
+(* CPython's string.Formatter().parse (used by the template validation) is library code: every theorem
+   below holds for EVERY function fparse standing for it (None = it raises ValueError). *)
+Definition formatter := string -> option (list (string * string)).
+
 (* Every arrangement with exactly one date and one amount, at most one description / location and
    distinct valid custom names (= no registered name twice), written with any blanks around the
    tokens, any letter case, {_} or {*}, any (ignored) sign / format on the other columns, any date
    format without "," and "}", is accepted, and every column is found at exactly its position. *)
 Theorem c18_positions :
-  forall (cols : list (kind * spelling)) (tmpl : option string),
+  forall (fparse : formatter) (cols : list (kind * spelling)) (tmpl : option string),
     forallb col_ok cols = true ->
     NoDup (keylist (map fst cols)) ->
     In "date" (keylist (map fst cols)) -> In "amount" (keylist (map fst cols)) ->
-    template_okb (map fst cols) tmpl = true ->
-    exists sp, parse_format (render cols) tmpl = Ok sp /\ maps_by_position (map fst cols) tmpl sp.
+    template_okb fparse (map fst cols) tmpl = true ->
+    exists sp, parse_format fparse (render cols) tmpl = Ok sp /\ maps_by_position (map fst cols) tmpl sp.
 Proof. exact positions. Qed.
 Print Assumptions c18_positions.
 
 (* no date, no amount, or neither {description} nor a custom capture: rejected, whatever else is there *)
 Theorem c18_reject_missing :
-  forall (cols : list (kind * spelling)) (tmpl : option string),
+  forall (fparse : formatter) (cols : list (kind * spelling)) (tmpl : option string),
     forallb col_ok cols = true ->
     (~ In "date" (keylist (map fst cols)) \/ ~ In "amount" (keylist (map fst cols)) \/
      (~ In KDesc (map fst cols) /\ forall n, ~ In (KCustom n) (map fst cols))) ->
-    exists e, parse_format (render cols) tmpl = Err e.
+    exists e, parse_format fparse (render cols) tmpl = Err e.
 Proof. exact reject_missing. Qed.
 Print Assumptions c18_reject_missing.
 
 (* any name registered twice (two dates, two {description}, the same custom name in any letter case, ...) *)
 Theorem c18_reject_duplicate :
-  forall (cols : list (kind * spelling)) (tmpl : option string),
+  forall (fparse : formatter) (cols : list (kind * spelling)) (tmpl : option string),
     forallb col_ok cols = true ->
     ~ NoDup (keylist (map fst cols)) ->
-    exists e, parse_format (render cols) tmpl = Err e.
+    exists e, parse_format fparse (render cols) tmpl = Err e.
 Proof. exact reject_duplicate. Qed.
 Print Assumptions c18_reject_duplicate.
 
-(* Full statement: a template that names (in str.format's sense: format_names) a column that is not a
-   usable capture is rejected.  It is FALSE of the faithful model: the parser only scans for plain
-   {name} references, so {nope:>10}, {nope!r}, {nope.x}, {nope[0]} pass. *)
+(* Full statement (a theorem about the tree since the fix "description template validation misses
+   {name:spec} ..."): a non-empty template that names -- in str.format's sense (Spec.looks_up: plain {r},
+   {r:spec}, {r!c}, {r.a}, {r[i]}, nested {a:{r}}) -- a column that is not a usable capture is rejected.
+   History: before the fix the parser only scanned for plain {name} references and this statement was
+   refuted by "{merchant} {nope:>10}" (finding C18/template-nonplain-reference-unchecked, now "fixed"). *)
 Definition c18_reject_uncaptured_template_statement : Prop :=
-  forall (cols : list (kind * spelling)) (t r : string),
-    forallb col_ok cols = true ->
-    In r (format_names t) -> ~ In r (mode2_names (map fst cols)) ->
-    exists e, parse_format (render cols) (Some t) = Err e.
+  forall (fparse : formatter) (cols : list (kind * spelling)) (t r : string),
+    forallb col_ok cols = true -> t <> "" ->
+    looks_up fparse t r -> ~ In r (mode2_names (map fst cols)) ->
+    exists e, parse_format fparse (render cols) (Some t) = Err e.
 
-Definition c18_witness_cols : list (kind * spelling) :=
-  [(KDate None, plain); (KCustom "merchant", plain); (KAmount SgNone, plain)].
-Definition c18_witness_template : string := "{merchant} {nope:>10}".
-
-Theorem c18_reject_uncaptured_template_refuted : ~ c18_reject_uncaptured_template_statement.
-Proof.
-  intros H. specialize (H c18_witness_cols c18_witness_template "nope" eq_refl).
-  destruct H as [e He].
-  - vm_compute. auto.
-  - vm_compute. intros [E|[]]. discriminate E.
-  - vm_compute in He. discriminate He.
-Qed.
-Print Assumptions c18_reject_uncaptured_template_refuted.
-
-(* What does hold: every plain {name} reference to something that is not a usable capture is rejected ... *)
-Theorem c18_reject_uncaptured_template_partial :
-  forall (cols : list (kind * spelling)) (t r : string),
-    forallb col_ok cols = true ->
-    In r (template_refs t) -> ~ In r (mode2_names (map fst cols)) ->
-    exists e, parse_format (render cols) (Some t) = Err e.
+Theorem c18_reject_uncaptured_template : c18_reject_uncaptured_template_statement.
 Proof. exact reject_uncaptured. Qed.
-Print Assumptions c18_reject_uncaptured_template_partial.
+Print Assumptions c18_reject_uncaptured_template.
 
-(* ... hence the full statement under the computable guard "every name the template uses occurs as a plain
-   {name} reference" (names_plain) *)
-Theorem c18_reject_uncaptured_template_guarded :
-  forall (cols : list (kind * spelling)) (t r : string),
-    forallb col_ok cols = true -> names_plain t = true ->
-    In r (format_names t) -> ~ In r (mode2_names (map fst cols)) ->
-    exists e, parse_format (render cols) (Some t) = Err e.
-Proof. exact reject_uncaptured_names. Qed.
-Print Assumptions c18_reject_uncaptured_template_guarded.
+(* a non-empty template that is not a valid format string (the library raises ValueError) is rejected *)
+Theorem c18_reject_malformed_template :
+  forall (fparse : formatter) (cols : list (kind * spelling)) (t : string),
+    forallb col_ok cols = true -> t <> "" -> fparse t = None ->
+    exists e, parse_format fparse (render cols) (Some t) = Err e.
+Proof. exact reject_malformed_template. Qed.
+Print Assumptions c18_reject_malformed_template.
 
 (* For every header row: if auto-detect succeeds, the string inspect suggests parses and selects the same
    date / description / amount / location columns and the same date format, with no sign mode. *)
 Theorem c18_inspect_roundtrip :
-  forall (headers : list string) (d : detected),
+  forall (fparse : formatter) (headers : list string) (d : detected),
     auto_detect headers = Some d ->
-    exists sp, parse_format (suggest d) None = Ok sp /\
+    exists sp, parse_format fparse (suggest d) None = Ok sp /\
       f_date sp = a_date d /\ f_date_format sp = a_date_format d /\ f_desc sp = Some (a_desc d) /\
       f_amount sp = a_amount d /\ f_loc sp = a_loc d /\ f_neg sp = false /\ f_abs sp = false /\
       f_custom sp = [] /\ f_extra sp = [].
@@ -98,6 +83,17 @@ Proof. exact inspect_roundtrip. Qed.
 Print Assumptions c18_inspect_roundtrip.
 
 (* ---- non-vacuity ---- *)
+(* what CPython's parser answers on the templates used below *)
+Definition ex_fparse : formatter := fun t =>
+  if String.eqb t "{merchant} ({type})" then Some [("merchant", ""); ("type", "")]
+  else if String.eqb t "{merchant} {nope:>10}" then Some [("merchant", ""); ("nope", ">10")]
+  else if String.eqb t "{merchant} {typo}" then Some [("merchant", ""); ("typo", "")]
+  else if String.eqb t "{merchant:{w}}" then Some [("merchant", "{w}")]
+  else if String.eqb t "{w}" then Some [("w", "")]
+  else if String.eqb t "{merchant.real} {type[0]!r}" then Some [("merchant.real", ""); ("type[0]", "")]
+  else if String.eqb t "{merchant" then None
+  else Some [].
+
 Definition ex_cols : list (kind * spelling) :=
   [ (KSkip, {| sp_lead := " "; sp_trail := ""; sp_mask := []; sp_star := true; sp_sign := SgNone; sp_spec := None |});
     (KDate (Some "%d.%m.%Y"), {| sp_lead := ""; sp_trail := "  "; sp_mask := [true; false; true]; sp_star := false;
@@ -110,25 +106,37 @@ Definition ex_cols : list (kind * spelling) :=
     (KLoc, spaced) ].
 
 Example c18_example_hypotheses :
-  forallb col_ok ex_cols = true /\ template_okb (map fst ex_cols) (Some "{merchant} ({type})") = true /\
+  forallb col_ok ex_cols = true /\ template_okb ex_fparse (map fst ex_cols) (Some "{merchant} ({type})") = true /\
+  template_okb ex_fparse (map fst ex_cols) (Some "{merchant.real} {type[0]!r}") = true /\
   render ex_cols = " {*},{-DaTe:%d.%m.%Y}  , {Merchant:>5},{_}, {+amount}, {type}, {location}" /\
   keylist (map fst ex_cols) = ["date"; "merchant"; "amount"; "type"; "location"].
 Proof. vm_compute. repeat split; reflexivity. Qed.
 
 Example c18_example_positions :
-  parse_format (render ex_cols) (Some "{merchant} ({type})") =
+  parse_format ex_fparse (render ex_cols) (Some "{merchant} ({type})") =
   Ok {| f_date := 1; f_date_format := "%d.%m.%Y"; f_amount := 4; f_desc := None;
         f_custom := [("merchant", 2); ("type", 5)]; f_template := Some "{merchant} ({type})"; f_extra := [];
         f_loc := Some 6; f_neg := false; f_abs := true; f_skipped := [0; 3] |}.
 Proof. vm_compute. reflexivity. Qed.
 
+Example c18_example_looks_up :
+  looks_up ex_fparse "{merchant} {nope:>10}" "nope" /\ looks_up ex_fparse "{merchant:{w}}" "w".
+Proof.
+  split.
+  - apply (lu_field ex_fparse "{merchant} {nope:>10}" [("merchant", ""); ("nope", ">10")] "nope" ">10"); [reflexivity|].
+    right. now left.
+  - apply (lu_nested ex_fparse "{merchant:{w}}" [("merchant", "{w}")] "merchant" "{w}" "w"); [reflexivity|now left|discriminate|].
+    apply (lu_field ex_fparse "{w}" [("w", "")] "w" ""); [reflexivity|now left].
+Qed.
+
 Example c18_example_rejects :
-  (exists e, parse_format "{date}, {description}" None = Err e) /\
-  (exists e, parse_format "{date}, {amount}, {Date:%Y}, {description}" None = Err e) /\
-  (exists e, parse_format "{date}, {merchant}, {amount}" (Some "{merchant} {typo}") = Err e) /\
-  (exists sp, parse_format "{date}, {merchant}, {amount}" (Some c18_witness_template) = Ok sp) /\
-  format_names c18_witness_template = ["merchant"; "nope"] /\ template_refs c18_witness_template = ["merchant"].
-Proof. vm_compute. repeat split; eexists; reflexivity. Qed.
+  (exists e, parse_format ex_fparse "{date}, {description}" None = Err e) /\
+  (exists e, parse_format ex_fparse "{date}, {amount}, {Date:%Y}, {description}" None = Err e) /\
+  (exists e, parse_format ex_fparse "{date}, {merchant}, {amount}" (Some "{merchant} {typo}") = Err e) /\
+  parse_format ex_fparse "{date}, {merchant}, {amount}" (Some "{merchant} {nope:>10}") = Err (EUncaptured "nope") /\
+  parse_format ex_fparse "{date}, {merchant}, {amount}" (Some "{merchant:{w}}") = Err (EUncaptured "w") /\
+  parse_format ex_fparse "{date}, {merchant}, {amount}" (Some "{merchant") = Err EBadTemplate.
+Proof. vm_compute. repeat split; try (eexists; reflexivity); reflexivity. Qed.
 
 Example c18_example_inspect :
   exists d, auto_detect ["Card"; "Posting Date"; "Trans Date"; "Merchant Name"; "City"; "Debit"] = Some d /\
